@@ -37,7 +37,7 @@ def run_variant(prop, var):
             if s.count(old) != 1:
                 return var, "stale", f"pattern occurs {s.count(old)} times in {file}"
             p.write_text(s.replace(old, new))
-        env = dict(os.environ, CIJ_REPO=str(tmp), CIJSA_EVIDENCE_DIR=str(tmp / "evidence"))
+        env = dict(os.environ, CIJ_REPO=str(tmp), CIJSA_EVIDENCE_DIR=str(tmp / "evidence"), CIJSA_NO_SELFTEST="1")
         r = subprocess.run([sys.executable, "-B", "-m", "cijsa", prop, "--tier", "quick"], cwd=VERIF, env=env,
                            capture_output=True, text=True, timeout=600)
         out = r.stdout + r.stderr
@@ -54,16 +54,20 @@ def run_variant(prop, var):
         shutil.rmtree(tmp, ignore_errors=True)
 
 
-def run(prop, jobs=16, verbose=True):
+def run(prop, jobs=16, verbose=True, collect=False):
     variants = load(prop)
     bad = 0
+    details = []
     with ThreadPoolExecutor(jobs) as ex:
         for var, status, detail in ex.map(lambda v: run_variant(prop, v), variants):
             if status != "ok":
                 bad += 1
+            details.append((var["id"], var.get("expect", "violation"), status))
             if verbose or status != "ok":
                 print(f"  [{status}] {prop} {var['id']} expect={var.get('expect', 'violation')}"
                       + (f"\n      {detail}" if status != "ok" else ""))
+    if collect:
+        return len(variants), bad, details
     return len(variants), bad
 
 
